@@ -64,7 +64,7 @@ func expectedStat(in Inc) (audio, video string, width, height int) {
 				}
 			}
 		case "vsh":
-			if video == "" {
+			{ // the dimensions follow the latest sequence header
 				vps, sps, _ := gen.ParamSets(in.Codecs.Video, it.Variant)
 				if in.Codecs.Video == "hevc" {
 					video = "H265"
@@ -110,12 +110,10 @@ func (w *world) statCheck(i int) *pbt.Violation {
 		return pbt.V("stat/stale-codec", "incarnation %d (%s): StatGroup reports audio_codec=%q video_codec=%q, the current input published audio=%q video=%q%s", i, shape(in.Codecs), sg.AudioCodec, sg.VideoCodec, a, v, prev)
 	}
 	dimsOK := sg.VideoWidth == wd && sg.VideoHeight == ht
-	if in.Codecs.Video == "hevc" && wd > 0 {
-		// lal reports the coded size of an HEVC stream (conformance window not applied; risk register): the cropped size
-		// rounded up to the coding block size
-		dimsOK = sg.VideoWidth >= wd && sg.VideoWidth < wd+64 && sg.VideoHeight >= ht && sg.VideoHeight < ht+64
-	}
 	if !dimsOK {
+		if countKindItems(in, "vsh") > 1 {
+			return pbt.V("stat/dimensions-after-header-change", "incarnation %d (%s): the publisher changed its video sequence header inside the publish; StatGroup reports %dx%d, the sequence header in force says %dx%d", i, shape(in.Codecs), sg.VideoWidth, sg.VideoHeight, wd, ht)
+		}
 		return pbt.V("stat/stale-dimensions", "incarnation %d (%s): StatGroup reports %dx%d, the current input's sequence header says %dx%d%s", i, shape(in.Codecs), sg.VideoWidth, sg.VideoHeight, wd, ht, prev)
 	}
 	return nil
@@ -322,6 +320,22 @@ func demuxTsOpt(data []byte, cut bool) (*tsContent, error) {
 	return out, nil
 }
 
+// twice returns a needle that occurs more than once in its elementary stream
+// (every published unit is unique: a second occurrence is a second delivery, e.g.
+// an audio batch flushed twice).
+func twice(tc *tsContent, ns []needle) (needle, int, bool) {
+	for _, n := range ns {
+		hay := tc.video
+		if n.audio {
+			hay = tc.audio
+		}
+		if c := bytes.Count(hay, n.data); c > 1 {
+			return n, c, true
+		}
+	}
+	return needle{}, 0, false
+}
+
 // firstMissing returns the first needle that does not occur (in order) in hay.
 func firstMissing(hay []byte, ns []needle) (int, bool) {
 	pos := 0
@@ -480,6 +494,10 @@ func (w *world) afterEndInner(i, incStart int, before recSnapshot, fsMark int) *
 		}
 		if v := w.noForeign(tc, i, who+": the TS recording"); v != nil {
 			return v
+		}
+		allV, allA := w.tsNeedles(incStart, len(w.P))
+		if n, c, dup := twice(tc, append(allV, allA...)); dup {
+			return pbt.V("duplicate/ts-output", "%s: the TS recording carries the %s %d times%s", who, n.what, c, pendingNote(in))
 		}
 	}
 
@@ -686,7 +704,14 @@ func (w *world) hlsAfterEnd(i, incStart, fsMark int, who string, vNeed, aNeed []
 	if k, miss := firstMissing(tc.video, vTail); miss {
 		return pbt.V("hls/video-missing", "%s: the %d HLS segments lack %s — %d of %d units are present in order before it%s", who, len(segs), vTail[k].what, k, len(vTail), pendingNote(in))
 	}
-	return w.noForeign(tc, i, who+": the HLS segments")
+	if v := w.noForeign(tc, i, who+": the HLS segments"); v != nil {
+		return v
+	}
+	allV, allA := w.tsNeedles(incStart, len(w.P))
+	if n, c, dup := twice(tc, append(allV, allA...)); dup {
+		return pbt.V("duplicate/ts-output", "%s: the HLS segments carry the %s %d times%s", who, n.what, c, pendingNote(in))
+	}
+	return nil
 }
 
 func countKind(p []pmsg, kind string) int {
@@ -782,14 +807,16 @@ func (w *world) psOwner(pps bool, b []byte) (incs []int, known bool) {
 		if cd.Video == "" {
 			continue
 		}
-		vps, sps, p := gen.ParamSets(cd.Video, incVariant(in))
-		if pps {
-			if bytes.Equal(b, p) {
-				incs = append(incs, i)
+		for _, variant := range incVariants(in) {
+			vps, sps, p := gen.ParamSets(cd.Video, variant)
+			if pps {
+				if bytes.Equal(b, p) {
+					incs = append(incs, i)
+					known = true
+				}
+			} else if bytes.Equal(b, sps) || (vps != nil && bytes.Equal(b, vps)) {
 				known = true
 			}
-		} else if bytes.Equal(b, sps) || (vps != nil && bytes.Equal(b, vps)) {
-			known = true
 		}
 	}
 	return
@@ -821,10 +848,14 @@ func (w *world) attribute(r lalclient.Rec) (out []attr, unknown string) {
 		return nil, "" // the dummy-audio filter's own sequence header (may coincide with an incarnation's config)
 	}
 	// verbatim headers / metadata of an RTMP-type incarnation
+	// (after a sequence header change two incarnations may use the same header: every owner is an alternative)
 	for x, pm := range w.P {
 		if (pm.kind == "meta" || pm.kind == "vsh" || pm.kind == "ash") && eq(pm.rec, r) {
-			return []attr{{inc: pm.inc, what: fmt.Sprintf("%s of incarnation %d (published index %d)", pm.kind, pm.inc, x)}}, ""
+			out = append(out, attr{inc: pm.inc, what: fmt.Sprintf("%s of incarnation %d (published index %d)", pm.kind, pm.inc, x)})
 		}
+	}
+	if len(out) > 0 {
+		return out, ""
 	}
 	pl := r.Payload
 	switch r.Type {
@@ -1021,6 +1052,65 @@ func (w *world) describe(r lalclient.Rec) string {
 }
 
 // checkTsConsumer judges an HTTP-TS consumer on the incarnation it joined.
+// tsHeldBack (audit-2 entry 5): an HTTP-TS consumer that joined incarnation k
+// (an RTMP-message kind) before its first key frame — the first key frame is
+// always a start point — or an incarnation without video, saw 17 or more
+// messages published (lal's TS remuxer decides after 16 at the latest) and
+// stayed to an end that keeps subscribers, yet received not a single unit.
+// Called before the consumer's connection is closed.
+func (w *world) tsHeldBack(a *attached) *pbt.Violation {
+	if w.c.DummyAudio {
+		return nil
+	}
+	k := w.incAt(a.j)
+	if k < 0 || !w.endKeeps(k) || remuxed(w.c.Incs[k].Input) {
+		return nil
+	}
+	in := w.c.Incs[k]
+	lo, hi := w.bounds[k][0], w.bounds[k][1]
+	if a.j > lo {
+		lo = a.j
+	}
+	if hi-lo < 17 {
+		return nil
+	}
+	for x := w.bounds[k][0]; x < a.j; x++ {
+		if w.P[x].key {
+			return nil // joined after the first key frame: the next start point depends on the audio batching
+		}
+	}
+	vN, aN := w.tsNeedles(lo, hi)
+	if in.Codecs.Video != "" {
+		hasKey := false
+		for x := lo; x < hi; x++ {
+			hasKey = hasKey || w.P[x].key
+		}
+		if !hasKey {
+			return nil
+		}
+	} else if len(aN) == 0 {
+		return nil
+	}
+	need := append(vN, aN...)
+	pbt.Count("heldback_rule_ts_due", 1)
+	any := func(body []byte) bool {
+		tc, err := demuxTsLive(body)
+		if err != nil {
+			return false
+		}
+		for _, n := range need {
+			if tc.carries(n) {
+				return true
+			}
+		}
+		return false
+	}
+	if a.ts.WaitPred(any, lalclient.DeliverTimeout) {
+		return nil
+	}
+	return pbt.V("held-back/ts", "HTTP-TS consumer %d joined incarnation %d (%s input, %s) at published index %d, before its first key frame; the incarnation then published %d messages (%d TS-carried units) and ended by %s, yet not one unit arrived (%d body bytes)", a.idx, k, in.Input, shape(in.Codecs), a.j, hi-lo, len(need), in.End, len(a.ts.Body()))
+}
+
 func (w *world) checkTsConsumer(a *attached, body []byte) *pbt.Violation {
 	who := fmt.Sprintf("HTTP-TS consumer %d (joined incarnation %d at %d = published index %d)", a.idx, a.spec.Inc, a.spec.JoinAt, a.j)
 	if len(body) == 0 {
@@ -1032,6 +1122,10 @@ func (w *world) checkTsConsumer(a *attached, body []byte) *pbt.Violation {
 	}
 	if v := w.noForeign(tc, a.minInc, who+": the body"); v != nil {
 		return v
+	}
+	allV, allA := w.tsNeedles(0, len(w.P))
+	if n, c, dup := twice(tc, append(allV, allA...)); dup {
+		return pbt.V("duplicate/ts-output", "%s: the body carries the %s %d times", who, n.what, c)
 	}
 	cd := w.c.Incs[a.minInc].Codecs
 	// (a consumer that stayed into a later incarnation sees that incarnation's tables too: judged on the first only
